@@ -2,25 +2,45 @@ package findings
 
 import (
 	"regexp"
+	"strconv"
 	"strings"
 
 	"verif/engine/core"
 )
 
 var fourDigitMajor = regexp.MustCompile(`^v?[0-9]{4}\.`)
+var githubDate = regexp.MustCompile(`^v?[0-9]{4}\.([0-9]{1,2})\.([0-9]{1,2})$`)
 var gemNumAfterWord = regexp.MustCompile(`[A-Za-z][.]?[0-9]`)
 
 func init() {
 	// github: a 4-digit first component switches to the date parser, which rejects month/day 0
 	// or out of range, and date-shaped versions sort below all others.
 	Register("C03-github-4digit-major", func(v *core.Violation) bool {
-		if v.Kind != "tuple-rejected" && v.Kind != "tuple-order" {
-			return false
-		}
-		for _, s := range v.Inputs {
-			if fourDigitMajor.MatchString(s) {
-				return true
+		switch v.Kind {
+		case "tuple-rejected":
+			// the date parser's range check: month outside 1..12 or day outside 1..31
+			m := githubDate.FindStringSubmatch(v.Inputs[0])
+			if m == nil {
+				return false
 			}
+			mo, _ := strconv.Atoi(m[1])
+			da, _ := strconv.Atoi(m[2])
+			return mo < 1 || mo > 12 || da < 1 || da > 31
+		case "tuple-order":
+			// exactly one operand is read as a date (the other has a 3+ digit component and is
+			// read as a semantic version): the date sorts below, whatever the numbers are.
+			// Two dates, or two semantic versions, ordered wrongly are NOT this finding.
+			if len(v.Inputs) != 2 || !fourDigitMajor.MatchString(v.Inputs[0]) || !fourDigitMajor.MatchString(v.Inputs[1]) {
+				return false
+			}
+			da, db := githubDate.MatchString(v.Inputs[0]), githubDate.MatchString(v.Inputs[1])
+			if da == db {
+				return false
+			}
+			if da {
+				return strings.HasPrefix(v.Got, "Compare=-1 ")
+			}
+			return strings.HasPrefix(v.Got, "Compare=1 ")
 		}
 		return false
 	})
